@@ -785,6 +785,8 @@ def run(ctx, load):
         o['rule'] = 'C11.list-links'
     ctx.floors.pop(('C04.link-pairing', ctx.config), None)
     ctx.floor('C11.list-links', 2)
+    from .rules_c04 import check_list_count
+    check_list_count(P, ctx, rule='C11.len-counts-links')
 
 
 EXPLANATION = (
